@@ -205,6 +205,7 @@ ConvFor(st, p, v) ==
 
 Eval(e, st) ==
   CASE e.k = "lit" -> R(Val(e.t, e.v), st)
+    [] e.k = "flit" -> R(FracVal(e.t, e.w, e.f, e.neg), st)
     [] e.k = "var" -> R(GetKey(st, KeyS(e.n, e.t)), st)
     [] e.k = "idx" ->
          LET r == ResolveLv(e, st) IN
@@ -340,6 +341,7 @@ PrintItems(st, s, j) ==
        ELSE PrintItems(st, s, j + 1))
     ELSE LET r == Eval(it.e, st) IN
       IF IsErr(r.v) THEN Fail(r.st, s.id, r.v.c)
+      ELSE IF r.v.t \in {"F", "U", "A"} THEN Skip(r.st)
       ELSE PrintItems(Emit(r.st, PrintText(r.v)), s, j + 1)
 
 ExecLet(st, s) ==
@@ -357,7 +359,7 @@ IfArms(st, s, j) ==
     [st EXCEPT !.k = Append(Adv(@), SeqFrame(s.els, <<s.id, 0>>))]
   ELSE LET r == Eval(s.arms[j].c, st) IN
     IF IsErr(r.v) THEN Fail(r.st, s.id, r.v.c)
-    ELSE IF IsStr(r.v) THEN Skip(r.st)
+    ELSE IF ~IsNum(r.v) THEN Skip(r.st)
     ELSE IF Truth(r.v) THEN [r.st EXCEPT !.k = Append(Adv(@), SeqFrame(s.arms[j].body, <<s.id, j>>))]
     ELSE IfArms(r.st, s, j + 1)
 
@@ -406,7 +408,7 @@ ExecFor(st, s) ==
           ELSE
             LET c == Eval(s.step, b.st) IN
             IF IsErr(c.v) THEN Fail(c.st, s.id, c.v.c)
-            ELSE IF IsStr(c.v) THEN Skip(c.st)
+            ELSE IF ~IsNum(c.v) THEN Skip(c.st)
             ELSE IF c.v.v = 0 THEN Raise(c.st, s.id, 258)
             ELSE
               LET st1 == SetKey(c.st, ckey, ca) IN
@@ -433,7 +435,7 @@ CondHolds(s, v) == IF Has(s, "kind") /\ s.kind = "until" THEN ~Truth(v) ELSE Tru
 ExecPreLoop(st, s) ==
   LET r == Eval(s.c, st) IN
   IF IsErr(r.v) THEN Fail(r.st, s.id, r.v.c)
-  ELSE IF IsStr(r.v) THEN Skip(r.st)
+  ELSE IF ~IsNum(r.v) THEN Skip(r.st)
   ELSE IF CondHolds(s, r.v)
        THEN [r.st EXCEPT !.k = Adv(@) \o <<[f |-> s.k, s |-> s], SeqFrame(s.body, <<s.id, 1>>)>>]
        ELSE [r.st EXCEPT !.k = Adv(@)]
@@ -443,7 +445,7 @@ LoopAgain(st) ==
   LET s == Last(st.k).s
       r == Eval(s.c, st)
   IN IF IsErr(r.v) THEN Fail(r.st, s.id, r.v.c)
-     ELSE IF IsStr(r.v) THEN Skip(r.st)
+     ELSE IF ~IsNum(r.v) THEN Skip(r.st)
      ELSE IF CondHolds(s, r.v)
           THEN [r.st EXCEPT !.k = Append(@, SeqFrame(s.body, <<s.id, 1>>))]
           ELSE [r.st EXCEPT !.k = Front(@)]
@@ -458,7 +460,7 @@ ReadTargets(st, s, j) ==
   ELSE IF st.dcur > Len(st.data) THEN Raise(st, s.id, 4)
   ELSE LET d == st.data[st.dcur]
            tgt == s.targets[j]
-           c == Cast(tgt.t, Val(d.t, d.v))
+           c == Cast(tgt.t, IF d.k = "flit" THEN FracVal(d.t, d.w, d.f, d.neg) ELSE Val(d.t, d.v))
        IN IF IsErr(c) THEN (IF c.c = 13 THEN Skip(st) ELSE Raise(st, s.id, c.c))
           ELSE LET p == ResolveLv(tgt, st) IN
                IF IsErr(p.v) THEN Fail(p.st, s.id, p.v.c)
